@@ -7,6 +7,7 @@ import Drpc.Wire.Compat
   ones in the source.  (The v0.0.17 side is a released, immutable module: it is tied by T2 only —
   the `compat` suite runs the unmodified release from the module cache.)
 -/
+set_option maxRecDepth 100000
 namespace Drpc.Tie.C18
 open Drpc
 
